@@ -124,7 +124,7 @@ class CellResolutionAttribute:
 
     if cr is not None:
 
-      m = CellResolutionAttribute._CELL_RESOLUTION_RE.match(cr)
+      m = CellResolutionAttribute._CELL_RESOLUTION_RE.fullmatch(cr)
 
       if m is not None:
 
@@ -255,7 +255,7 @@ class TickRateAttribute:
 
     if tr is not None:
 
-      m = TickRateAttribute._TICK_RATE_RE.match(tr)
+      m = TickRateAttribute._TICK_RATE_RE.fullmatch(tr)
 
       if m is not None:
 
@@ -283,7 +283,7 @@ class AspectRatioAttribute:
     if ar_raw is None:
       return None
 
-    m = AspectRatioAttribute._re.match(ar_raw)
+    m = AspectRatioAttribute._re.fullmatch(ar_raw)
 
     if m is None:
       LOGGER.error("ittp:aspectRatio invalid syntax")
@@ -315,7 +315,7 @@ class DisplayAspectRatioAttribute:
     if ar_raw is None:
       return None
 
-    m = DisplayAspectRatioAttribute._re.match(ar_raw)
+    m = DisplayAspectRatioAttribute._re.fullmatch(ar_raw)
 
     if m is None:
       LOGGER.error("ttp:displayAspectRatio invalid syntax")
@@ -361,7 +361,7 @@ class FrameRateAttribute:
 
     if fr_raw is not None:
 
-      m = FrameRateAttribute._FRAME_RATE_RE.match(fr_raw)
+      m = FrameRateAttribute._FRAME_RATE_RE.fullmatch(fr_raw)
 
       if m is not None:
 
@@ -379,7 +379,7 @@ class FrameRateAttribute:
 
     if frm_raw is not None:
 
-      m = FrameRateAttribute._FRAME_RATE_MULT_RE.match(frm_raw)
+      m = FrameRateAttribute._FRAME_RATE_MULT_RE.fullmatch(frm_raw)
 
       if m is not None:
 
